@@ -167,6 +167,8 @@ impl Driver for C04 {
                                     format!("{solver}:tolerance-level-violation(1e-6..1e-3)")
                                 } else if solver == "tableau" && amplified_tolerance(&what) {
                                     "tableau:tolerance-amplified-violation(1e-3..1e-2)".to_string()
+                                } else if matches!(solver, "auto" | "milp" | "microlp-real") && has_tiny_coefficient(spec) {
+                                    "microlp:point-violating-a-row-on-model-with-coefficient-below-1e-5".to_string()
                                 } else {
                                     format!("{solver}:{class};truth={truth}")
                                 };
@@ -246,6 +248,11 @@ fn precondition_label(spec: &LmSpec) -> &'static str {
 }
 
 /// The certificate's explanation ends with "by <scaled violation> (scaled)".
+/// a non-zero row coefficient of magnitude below 1e-5
+fn has_tiny_coefficient(spec: &LmSpec) -> bool {
+    spec.rows.iter().any(|r| r.a.iter().any(|a| *a != 0.0 && a.abs() < 1e-5))
+}
+
 fn amplified_tolerance(what: &str) -> bool {
     what.rsplit(" by ").next().and_then(|t| t.split_whitespace().next()).and_then(|v| v.parse::<f64>().ok()).is_some_and(|v| v > 1e-3 && v <= 1e-2)
 }
@@ -456,6 +463,13 @@ impl Driver for C05 {
                             out.violation(
                                 "no-verdict-on-astronomically-scaled-model(|number|>=1e100)",
                                 &format!("{solver} ended with error kind {kind} on a model that contains a number of magnitude >= 1e100; the model is {tkind}"),
+                                detail(json!({"error_kind": kind, "message": msg})),
+                            );
+                        } else if msg.contains("Singular matrix") && matches!(solver, "auto" | "milp" | "microlp-real") {
+                            // a numerical failure inside MicroLP's basis factorisation, handed on as SolverError::Other
+                            out.violation(
+                                "microlp:no-verdict(Singular matrix)",
+                                &format!("{solver} ended with \"{msg}\" instead of optimum/Infeasible/Unbounded; the model is {tkind}"),
                                 detail(json!({"error_kind": kind, "message": msg})),
                             );
                         } else {
